@@ -229,6 +229,13 @@ func (p *c14) Gen(seed uint64, i int, tier string) (any, bool) {
 		sc.Client.TLSPolicy = "mandatory"
 		sc.Server.Caps = append(sc.Server.Caps, "STARTTLS")
 		sc.Server.TLS = refsmtpd.TLSCfg{Cert: "valid", Version: sim.Pick(r, []string{"1.2", "1.3"})}
+		if r.Chance(1, 4) && DialSeam {
+			// implicit TLS through go-mail's own tls.Dialer: the connection is encrypted from the
+			// first byte, there is no STARTTLS step
+			sc.Client.TLSPolicy, sc.Client.DefaultDialer = "implicit", true
+			sc.Server.ImplicitTLS = true
+			sc.Server.Caps = sc.Server.Caps[:len(sc.Server.Caps)-1]
+		}
 	}
 	if mech == "AUTODISCOVER" {
 		// vary what the server offers so that discovery lands on different mechanisms
@@ -241,7 +248,7 @@ func (p *c14) Gen(seed uint64, i int, tier string) (any, bool) {
 		// at least one mechanism that discovery may pick on this kind of connection
 		usable := false
 		for _, m := range offer {
-			if m == "SCRAM-SHA-256" || m == "SCRAM-SHA-1" || m == "CRAM-MD5" || (sc.Client.TLSPolicy == "mandatory" && m != "XOAUTH2") {
+			if m == "SCRAM-SHA-256" || m == "SCRAM-SHA-1" || m == "CRAM-MD5" || ((sc.Client.TLSPolicy == "mandatory" || sc.Client.TLSPolicy == "implicit") && m != "XOAUTH2") {
 				usable = true
 			}
 		}
@@ -268,7 +275,7 @@ func (p *c14) Gen(seed uint64, i int, tier string) (any, bool) {
 		// on the second connection the account has another iteration count (same salt)
 		sc.Server.Auth.IterLater = sim.Pick(r, []int{1, 2, stored.Iter + 1, 10000})
 	}
-	if sc.Retry != "" && sc.Client.TLSPolicy == "mandatory" && r.Chance(1, 2) {
+	if sc.Retry != "" && (sc.Client.TLSPolicy == "mandatory" || sc.Client.TLSPolicy == "implicit") && r.Chance(1, 2) {
 		// the second connection resumes the TLS session of the first
 		sc.Client.SessionCache = true
 	}
